@@ -81,6 +81,9 @@ func genStep(p *Profile, cfg *Config) *rapid.Generator[[]Op] {
 		}
 		done := func() Op {
 			op := Op{K: "done", Idx: rapid.IntRange(-1, 6).Draw(t, "call"), Out: rapid.SampledFrom([]int{0, 0, 0, 1, 2, 2, 3, 4, 5}).Draw(t, "out")}
+			if rapid.IntRange(0, 3).Draw(t, "anycode") == 0 {
+				op.Out = rapid.IntRange(6, 24).Draw(t, "outcode") // any status code, plain errors
+			}
 			if rapid.IntRange(0, 3).Draw(t, "rep") == 0 {
 				op.Rep = 1
 				op.Reply = rapid.SliceOfN(rapid.IntRange(0, 4), 0, 3).Draw(t, "reply")
@@ -124,7 +127,7 @@ func genStep(p *Profile, cfg *Config) *rapid.Generator[[]Op] {
 			}
 			ops := []Op{{K: "pick", M: bm, Key: key}, {K: "done", Idx: -1, Out: 0}}
 			if rapid.IntRange(0, 4).Draw(t, "thenunbind") == 0 {
-				ops = append(ops, Op{K: "pick", M: 3, Key: key}, Op{K: "done", Idx: -1, Out: rapid.SampledFrom([]int{0, 0, 1}).Draw(t, "uout")})
+				ops = append(ops, Op{K: "pick", M: 3, Key: key}, Op{K: "done", Idx: -1, Out: rapid.SampledFrom([]int{0, 0, 1, 11, 19, 23}).Draw(t, "uout")})
 			}
 			ops = append(ops, Op{K: "pick", M: um, Key: key})
 			return ops
